@@ -1,18 +1,283 @@
 //! C12 executor.  One line = one history on four `Bitset<N>` registers, all starting as `new()`:
-//!   `<N> <op> <args> <op> <args> ...`      N in {1, 2, 3, 10}
+//!   `<N> <op> <args> <op> <args> ...`      N in {0, 1, 2, 3, 4, 8, 10, 16, 17, 20, 32, 33, 64, 65, 128, 129, 157, 1024, 1025}
 //! ops: new d | from d x | set d x | rem d x | flip d x | test a x | clear d | count a | iter a
 //!      | and/or/xor d a b  (d = &a op &b) | anda/ora/xora a b  (a op= &b) | not d a | eq a b
 //!      | clone d a | disp a | dbg a
+//!      | iterx a k j   (same output line as `iter a`; additionally every provided Iterator method that a user can
+//!                       call on the iterator - size_hint, count, last, nth, fold, sum, min, max, collect, for, by_ref+take,
+//!                       skip, step_by, peekable, position, two live iterators - is compared with the items that plain
+//!                       `next()` produced, after k items have been consumed and with parameter j)
+//!      | iterraw a     (same output line as `iter a`, produced by the public constructor `BitsIter::new` on a raw
+//!                       `[u64; N]` rebuilt from `test`)
+//!      | clonefrom d a (`d.clone_from(&a)`; same output as `clone d a`)
+//!      | itern a k j   (same output line as `count a`: the NUMBER of items of `iter_bits`, after checking inside the
+//!                       executor that the items are strictly ascending, are exactly the indices with `test` = true,
+//!                       that the iterator stays at None, and everything `iterx a k j` checks; for sets too large to
+//!                       replay item by item in the Coq model)
+//!      | dispn a | dbgn a  (same output line as `count a`: the number of '1' characters of the rendering, after
+//!                       checking inside the executor that it has 64*N characters and character i is '1' iff `test(i)`)
 //! output: one token per op: `u` (done), `P` (panicked), `b0`/`b1`, `n<k>`,
-//!         `l<e>:<i,j,...>` (iterator items; e = 1 iff two more next() calls gave None), `s<string>`.
+//!         `l<e>:<i,j,...>` (iterator items; e = 1 iff two more next() calls gave None), `s<string>`,
+//!         `X<tag>`: two public ways of asking the same question disagreed (`==` vs `!=`, `{}` vs `to_string()`,
+//!         `next()` vs `count()`, ...): never what the model predicts.
+use rlib_bitset::bits_iter::BitsIter;
 use rlib_bitset::Bitset;
 use vh::{guarded, p};
+
+/// all items through `next()`, then two more calls (bounded: a broken iterator must not hang the executor)
+fn drain(it: &mut impl Iterator<Item = usize>, bound: usize) -> (Vec<usize>, bool) {
+    let mut items: Vec<usize> = Vec::new();
+    while let Some(v) = it.next() {
+        items.push(v);
+        if items.len() > bound {
+            break;
+        }
+    }
+    let e = it.next().is_none() & it.next().is_none();
+    (items, e)
+}
+
+fn list_tok(items: &[usize], e: bool) -> String {
+    format!("l{}:{}", e as u8, items.iter().map(|v| v.to_string()).collect::<Vec<_>>().join(","))
+}
+
+fn hint_ok(h: (usize, Option<usize>), remaining: usize) -> bool {
+    h.0 <= remaining && h.1.map_or(true, |u| remaining <= u)
+}
+
+fn mix(s: usize, v: usize) -> usize {
+    s.wrapping_mul(31).wrapping_add(v).wrapping_add(1)
+}
+
+/// every other way of consuming the iterator must agree with `items` (what plain `next()` gave)
+fn iter_consistency<const N: usize>(b: &Bitset<N>, items: &[usize], k: usize, j: usize) -> Result<(), &'static str> {
+    let cnt = items.len();
+    // size_hint while the iterator is consumed with next()
+    {
+        let mut it = b.iter_bits();
+        let every = cnt <= 4096;
+        for step in 0..cnt + 2 {
+            let remaining = cnt.saturating_sub(step);
+            if every || step == 0 || step == k || step + 1 >= cnt {
+                if !hint_ok(it.size_hint(), remaining) {
+                    return Err("size_hint");
+                }
+            }
+            let got = it.next();
+            if got != items.get(step).copied() {
+                return Err("next-again");
+            }
+        }
+    }
+    // an iterator on which next() was called k times (k may exceed the number of items: calls after the end)
+    let mk = |k: usize| {
+        let mut it = b.iter_bits();
+        for _ in 0..k.min(cnt + 2) {
+            it.next();
+        }
+        it
+    };
+    let tail = &items[k.min(cnt)..];
+    if !hint_ok(mk(k).size_hint(), tail.len()) {
+        return Err("size_hint-k");
+    }
+    if mk(k).count() != tail.len() {
+        return Err("count");
+    }
+    if mk(k).last() != tail.last().copied() {
+        return Err("last");
+    }
+    {
+        let mut it = mk(k);
+        if it.nth(j) != tail.get(j).copied() {
+            return Err("nth");
+        }
+        if !hint_ok(it.size_hint(), tail.len().saturating_sub(j + 1)) {
+            return Err("size_hint-nth");
+        }
+        if it.next() != tail.get(j + 1).copied() {
+            return Err("nth-next");
+        }
+    }
+    if mk(k).fold(7usize, mix) != tail.iter().copied().fold(7usize, mix) {
+        return Err("fold");
+    }
+    if mk(k).sum::<usize>() != tail.iter().sum::<usize>() {
+        return Err("sum");
+    }
+    if mk(k).max() != tail.last().copied() || mk(k).min() != tail.first().copied() {
+        return Err("minmax");
+    }
+    if mk(k).collect::<Vec<usize>>() != tail {
+        return Err("collect");
+    }
+    {
+        let mut v: Vec<usize> = Vec::new();
+        for x in mk(k) {
+            v.push(x);
+            if v.len() > cnt + 8 {
+                break;
+            }
+        }
+        if v != tail {
+            return Err("for");
+        }
+    }
+    {
+        let mut seen = 0usize;
+        mk(k).for_each(|x| {
+            if tail.get(seen) == Some(&x) {
+                seen += 1;
+            } else {
+                seen = usize::MAX / 2;
+            }
+        });
+        if seen != tail.len() {
+            return Err("for_each");
+        }
+    }
+    {
+        let cut = j.min(tail.len());
+        let mut it = mk(k);
+        let first: Vec<usize> = it.by_ref().take(j).collect();
+        if first != tail[..cut] {
+            return Err("take");
+        }
+        if !hint_ok(it.size_hint(), tail.len() - cut) {
+            return Err("size_hint-take");
+        }
+        if it.count() != tail.len() - cut {
+            return Err("count-after-take");
+        }
+        let mut it = mk(k);
+        let mut got = 0;
+        for x in it.by_ref() {
+            if tail.get(got) != Some(&x) {
+                return Err("by_ref-for");
+            }
+            got += 1;
+            if got >= j {
+                break;
+            }
+        }
+        let rest: Vec<usize> = it.collect();
+        if rest != tail[got.min(tail.len())..] {
+            return Err("resume");
+        }
+    }
+    if mk(k).skip(j).next() != tail.get(j).copied() {
+        return Err("skip");
+    }
+    if mk(k).step_by(j + 1).collect::<Vec<usize>>() != tail.iter().copied().step_by(j + 1).collect::<Vec<usize>>() {
+        return Err("step_by");
+    }
+    {
+        let mut pk = mk(k).peekable();
+        if pk.peek().copied() != tail.first().copied() {
+            return Err("peek");
+        }
+        if pk.collect::<Vec<usize>>() != tail {
+            return Err("peekable");
+        }
+    }
+    match tail.get(j) {
+        Some(&target) => {
+            if mk(k).position(|v| v == target) != Some(j) {
+                return Err("position");
+            }
+            if mk(k).find(|&v| v >= target) != Some(target) {
+                return Err("find");
+            }
+        }
+        None => {
+            if mk(k).position(|v| v == usize::MAX) != None {
+                return Err("position-none");
+            }
+        }
+    }
+    if !mk(k).all(|v| v < 64 * N) || mk(k).any(|v| v >= 64 * N) {
+        return Err("all-any");
+    }
+    // two live iterators on the same bitset (and one on a clone), advanced in an interleaved order
+    {
+        let c = b.clone();
+        let (mut i1, mut i2, mut i3) = (b.iter_bits(), b.iter_bits(), c.iter_bits());
+        let (mut p1, mut p2, mut p3) = (0usize, 0usize, 0usize);
+        for round in 0..cnt + 2 {
+            if i1.next() != items.get(p1).copied() {
+                return Err("interleave-1");
+            }
+            p1 += 1;
+            if round % 2 == 0 {
+                if i2.next() != items.get(p2).copied() {
+                    return Err("interleave-2");
+                }
+                p2 += 1;
+            }
+            if round % 3 == j % 3 {
+                if i3.next() != items.get(p3).copied() {
+                    return Err("interleave-3");
+                }
+                p3 += 1;
+            }
+        }
+        if i2.collect::<Vec<usize>>() != items[p2.min(cnt)..] || i3.count() != cnt - p3.min(cnt) {
+            return Err("interleave-rest");
+        }
+    }
+    Ok(())
+}
+
+struct Pieces(Vec<String>);
+impl std::fmt::Write for Pieces {
+    fn write_str(&mut self, s: &str) -> std::fmt::Result {
+        self.0.push(s.to_string());
+        Ok(())
+    }
+}
+
+/// the other ways of rendering must give the string `s` that `format!("{}")` / `format!("{:?}")` gave.
+/// Width and precision equal to the length of `s` cannot change it whether or not the flags are honoured.
+fn fmt_consistency<const N: usize>(b: &Bitset<N>, s: &str, debug: bool) -> Result<(), &'static str> {
+    use std::fmt::Write;
+    // std limits width / precision arguments to u16; a width below the length is as harmless as one equal to it,
+    // a precision below the length is not (it would truncate if honoured), so it is used only when it fits
+    let w = s.len().min(65535);
+    let prec_ok = s.len() <= 65535;
+    let mut pc = Pieces(Vec::new());
+    if debug {
+        if format!("{:#?}", b) != s {
+            return Err("fmt-alt-debug");
+        }
+        if format!("{:w$?}", b, w = w) != s || format!("{:<w$?}", b, w = w) != s || (prec_ok && format!("{:.w$?}", b, w = w) != s) {
+            return Err("fmt-width-debug");
+        }
+        if write!(pc, "{:?}", b).is_err() || pc.0.concat() != s {
+            return Err("fmt-writer-debug");
+        }
+    } else {
+        if b.to_string() != s {
+            return Err("fmt-to_string");
+        }
+        if format!("{:w$}", b, w = w) != s || format!("{:>w$}", b, w = w) != s || (prec_ok && format!("{:.w$}", b, w = w) != s) {
+            return Err("fmt-width");
+        }
+        if write!(pc, "{}", b).is_err() || pc.0.concat() != s {
+            return Err("fmt-writer");
+        }
+        if format!("[{}|{}]", b, b) != format!("[{}|{}]", s, s) {
+            return Err("fmt-nested");
+        }
+    }
+    Ok(())
+}
 
 fn run<const N: usize>(t: &[&str]) -> String {
     let mut r: Vec<Bitset<N>> = (0..4).map(|_| Bitset::<N>::new()).collect();
     let mut out: Vec<String> = Vec::new();
     let mut i = 1;
     let unit = |o: Option<()>| if o.is_some() { "u".to_string() } else { "P".to_string() };
+    let bound = 64 * N + 8;
     while i < t.len() {
         let op = t[i];
         let a1: usize = p(t[i + 1]);
@@ -57,23 +322,94 @@ fn run<const N: usize>(t: &[&str]) -> String {
             }
             "iter" => {
                 i += 2;
+                match guarded(|| drain(&mut r[a1].iter_bits(), bound)) {
+                    Some((items, e)) => list_tok(&items, e),
+                    None => "P".to_string(),
+                }
+            }
+            "iterx" => {
+                let (k, j): (usize, usize) = (p(t[i + 2]), p(t[i + 3]));
+                i += 4;
                 match guarded(|| {
-                    let mut it = r[a1].iter_bits();
-                    let mut items: Vec<usize> = Vec::new();
-                    while let Some(v) = it.next() {
-                        items.push(v);
-                        if items.len() > 64 * N + 8 {
-                            break; // a broken iterator must not hang the executor
+                    let (items, e) = drain(&mut r[a1].iter_bits(), bound);
+                    if items.len() > bound {
+                        return (items, e, Ok(())); // already wrong: shown as it is
+                    }
+                    let c = iter_consistency(&r[a1], &items, k, j);
+                    (items, e, c)
+                }) {
+                    Some((items, e, Ok(()))) => list_tok(&items, e),
+                    Some((_, _, Err(tag))) => format!("Xiter-{}", tag),
+                    None => "P".to_string(),
+                }
+            }
+            "itern" => {
+                let (k, j): (usize, usize) = (p(t[i + 2]), p(t[i + 3]));
+                i += 4;
+                match guarded(|| {
+                    let (items, e) = drain(&mut r[a1].iter_bits(), bound);
+                    if !e || items.len() > bound {
+                        return Err("not-ended");
+                    }
+                    if items.windows(2).any(|w| w[0] >= w[1]) || items.iter().any(|&v| v >= 64 * N) {
+                        return Err("order");
+                    }
+                    let mut pos = 0usize;
+                    for x in 0..64 * N {
+                        let member = pos < items.len() && items[pos] == x;
+                        if member {
+                            pos += 1;
+                        }
+                        if r[a1].test(x) != member {
+                            return Err("vs-test");
                         }
                     }
-                    let e = it.next().is_none() & it.next().is_none();
-                    (items, e)
+                    iter_consistency(&r[a1], &items, k, j)?;
+                    Ok(items.len())
                 }) {
-                    Some((items, e)) => format!(
-                        "l{}:{}",
-                        e as u8,
-                        items.iter().map(|v| v.to_string()).collect::<Vec<_>>().join(",")
-                    ),
+                    Some(Ok(c)) => format!("n{}", c),
+                    Some(Err(tag)) => format!("Xitern-{}", tag),
+                    None => "P".to_string(),
+                }
+            }
+            "dispn" | "dbgn" => {
+                i += 2;
+                let debug = op == "dbgn";
+                match guarded(|| {
+                    let s = if debug { format!("{:?}", r[a1]) } else { format!("{}", r[a1]) };
+                    fmt_consistency(&r[a1], &s, debug)?;
+                    let b = s.as_bytes();
+                    if b.len() != 64 * N {
+                        return Err("fmt-length");
+                    }
+                    let mut ones = 0usize;
+                    for x in 0..64 * N {
+                        let want = if r[a1].test(x) { b'1' } else { b'0' };
+                        if b[x] != want {
+                            return Err("fmt-vs-test");
+                        }
+                        ones += (b[x] == b'1') as usize;
+                    }
+                    Ok(ones)
+                }) {
+                    Some(Ok(c)) => format!("n{}", c),
+                    Some(Err(tag)) => format!("X{}", tag),
+                    None => "P".to_string(),
+                }
+            }
+            "iterraw" => {
+                i += 2;
+                match guarded(|| {
+                    let mut arr = [0u64; N];
+                    for x in 0..64 * N {
+                        if r[a1].test(x) {
+                            arr[x / 64] |= 1u64 << (x % 64);
+                        }
+                    }
+                    let mut it = BitsIter::new(&arr);
+                    drain(&mut it, bound)
+                }) {
+                    Some((items, e)) => list_tok(&items, e),
                     None => "P".to_string(),
                 }
             }
@@ -109,8 +445,17 @@ fn run<const N: usize>(t: &[&str]) -> String {
             "eq" => {
                 let b: usize = p(t[i + 2]);
                 i += 3;
-                match guarded(|| r[a1] == r[b]) {
-                    Some(e) => format!("b{}", e as u8),
+                // `==`, and the three other ways of asking the same question: `!=`, and both with the operands swapped
+                match guarded(|| (r[a1] == r[b], r[a1] != r[b], r[b] == r[a1], r[b] != r[a1])) {
+                    Some((e, ne, es, nes)) => {
+                        if ne == e || nes == es {
+                            "Xeq-ne".to_string()
+                        } else if es != e {
+                            "Xeq-sym".to_string()
+                        } else {
+                            format!("b{}", e as u8)
+                        }
+                    }
                     None => "P".to_string(),
                 }
             }
@@ -119,17 +464,24 @@ fn run<const N: usize>(t: &[&str]) -> String {
                 i += 3;
                 unit(guarded(|| r[a1] = r[a].clone()))
             }
-            "disp" => {
-                i += 2;
-                match guarded(|| format!("{}", r[a1])) {
-                    Some(s) => format!("s{}", s),
-                    None => "P".to_string(),
-                }
+            "clonefrom" => {
+                let a: usize = p(t[i + 2]);
+                i += 3;
+                unit(guarded(|| {
+                    let src = r[a].clone();
+                    r[a1].clone_from(&src);
+                }))
             }
-            "dbg" => {
+            "disp" | "dbg" => {
                 i += 2;
-                match guarded(|| format!("{:?}", r[a1])) {
-                    Some(s) => format!("s{}", s),
+                let debug = op == "dbg";
+                match guarded(|| {
+                    let s = if debug { format!("{:?}", r[a1]) } else { format!("{}", r[a1]) };
+                    let c = fmt_consistency(&r[a1], &s, debug);
+                    (s, c)
+                }) {
+                    Some((s, Ok(()))) => format!("s{}", s),
+                    Some((_, Err(tag))) => format!("X{}", tag),
                     None => "P".to_string(),
                 }
             }
@@ -149,12 +501,25 @@ fn run<const N: usize>(t: &[&str]) -> String {
 
 fn main() {
     vh::serve(|t| match t[0] {
+        "0" => run::<0>(t),
         "1" => run::<1>(t),
         "2" => run::<2>(t),
         "3" => run::<3>(t),
+        "4" => run::<4>(t),
+        "8" => run::<8>(t),
         "10" => run::<10>(t),
+        "16" => run::<16>(t),
         "17" => run::<17>(t),
         "20" => run::<20>(t),
+        "32" => run::<32>(t),
+        "33" => run::<33>(t),
+        "64" => run::<64>(t),
+        "65" => run::<65>(t),
+        "128" => run::<128>(t),
+        "129" => run::<129>(t),
+        "157" => run::<157>(t),
+        "1024" => run::<1024>(t),
+        "1025" => run::<1025>(t),
         other => {
             eprintln!("harness: unsupported N {}", other);
             std::process::exit(3)
